@@ -176,6 +176,15 @@ impl World {
                         ColDef { name: "y", data_type: DataType::integer_interval(1, 2), domain: vec![int(1), int(2)], unique: false },
                     ],
                 },
+                // a UNIQUE column that is nullable (several rows may hold NULL) next to a plain column
+                TableDef {
+                    name: "nu",
+                    max_rows: 3,
+                    cols: vec![
+                        ColDef { name: "u", data_type: DataType::optional(DataType::integer_interval(1, 3)), domain: vec![int(1), int(2), Cell::Null], unique: true },
+                        ColDef { name: "w", data_type: DataType::integer_interval(1, 2), domain: vec![int(1), int(2)], unique: false },
+                    ],
+                },
                 TableDef {
                     name: "items",
                     max_rows: 3,
